@@ -283,6 +283,14 @@ pub fn dyn_budget(c: &DynCase) -> usize {
     (c.input.len() + 16) * (c.script.depth() + 2) * 4
 }
 
+/// Signature of known finding F10: the visitor of the script stops reading a map / sequence early
+/// and the panic is the `unreachable!` on an End event (release builds) or the debug assertion that
+/// compares the name of that End event with the element being read (builds with debug assertions,
+/// e.g. the coverage-guided target): `src/de/map.rs`, `debug_assert_eq!(self.start.name(), e.name())`.
+pub fn is_f10_panic(msg: &str, script: &crate::dynde::Script) -> bool {
+    script.has_early_stop() && (msg.contains("entered unreachable code: BytesEnd") || (msg.contains("assertion `left == right` failed") && msg.contains("QName(") && msg.contains("src/de/map.rs")))
+}
+
 pub fn check_dyn(c: &DynCase) -> Verdict {
     use crate::dynde;
     dynde::set_budget(dyn_budget(c));
@@ -300,7 +308,7 @@ pub fn check_dyn(c: &DynCase) -> Verdict {
             // known finding F10: a visitor that returns before its MapAccess/SeqAccess is exhausted
             // leaves the rest of the element in the stream; the enclosing access then meets an End
             // event where the code says `unreachable!`
-            if msg.contains("entered unreachable code: BytesEnd") && c.script.has_early_stop() {
+            if is_f10_panic(&msg, &c.script) {
                 let mut v = Verdict::pass(true);
                 v.known.push("F10-undrained-map-access-end-event-unreachable");
                 v.classes.push("scripted-visitor-stops-early");
